@@ -8,9 +8,11 @@ class C16(BaseCheck):
   ID = 'C16'
   RULE = ('three case kinds. singleton: real SingletonPoolSink over harness-owned multiplexing connections '
           '(open delay 0-0.5 s, may fail): 10-120 ops of concurrent/sequential requests (each in its own '
-          'greenlet), completions, connection failures at any point (idle, opening, busy), time advances; '
+          'greenlet), completions, connection failures at any point (idle, opening, busy), time advances, the holder '
+          'closing the pool and re-opening / using it while an underlying Close() that yields is still in flight; '
           'provider-side invariants: <= 1 live connection, requests racing the first open share it, a failed '
-          'connection is replaced on the next request and never used again. refcount: random Open/Close '
+          'connection is replaced on the next request and never used again, nothing is live after the last holder '
+          'closed. refcount: random Open/Close '
           'histories by 1-6 holders on a real RefCountedSink vs. a counter model (underlying Open exactly on '
           '0->1, Close exactly on 1->0, surplus closes ignored, same open result for all). shared: random '
           'CreateSink/drop histories on a real SharedSinkProvider (same key => same object while a holder '
@@ -52,6 +54,7 @@ class C16(BaseCheck):
     reqs = []
     open_delay = rng.choice([0.0, 0.0, 0.05, 0.5])
     fail_open_p = rng.choice([0.0, 0.0, 0.2])
+    close_delay = rng.choice([0.0, 0.0, 0.002, 0.05])     # an underlying Close() that yields while tearing down
 
     class Conn(ClientMessageSink):
       def __init__(self):
@@ -99,6 +102,8 @@ class C16(BaseCheck):
         self.close_calls += 1
         self._state = CLOSED
         env.emit('prov.close', conn=self.id)
+        if close_delay:
+          gevent.sleep(close_delay)
 
       def fail(self, why):
         if self.failed:
@@ -184,6 +189,15 @@ class C16(BaseCheck):
         if c:
           r = c.inflight.pop(rng.randrange(len(c.inflight)))
           r['stack'].AsyncProcessResponseMessage(MethodReturnMessage(return_value=r['id']))
+      elif k < 0.72 and use_pool_open and not any(c._state == IDLE and c.open_ar is not None and not c.open_ar.ready()
+                                                  for c in conns):
+        # the holder closes the pool and it is re-opened / used again while the close is in flight
+        classes.add('close-then-reopen')
+        gevent.spawn(pool.Close)
+        env.advance(rng.choice([0.0, 0.0, close_delay / 2]))
+        pool.Open()
+        if rng.random() < 0.5:
+          issue()
       elif k < 0.8:
         lv = [c for c in conns if not c.failed and c._state != CLOSED]
         if lv:
@@ -215,7 +229,11 @@ class C16(BaseCheck):
       if len(r['deliveries']) > 1:
         out.violate('singleton:double-completion', 'request %d completed %d times' % (r['id'], len(r['deliveries'])), {})
     pool.Close()
-    env.settle()
+    env.advance(0.2)
+    out.obligations += 1
+    if use_pool_open and live():
+      out.violate('singleton:leaked-after-close', 'connections %r are still live after the last holder closed the pool' % (
+        [c.id for c in live()],), {})
     out.classes = sorted(classes)
     out.nontrivial = len(reqs) >= 3
     out.extra = {'connections': len(conns), 'requests': len(reqs)}
